@@ -6,11 +6,11 @@
    comparable with the real binary, encrypted BYTES are not (they are compared through SrcRun5's entry points, which take key and
    seed as inputs).
 
-   main() itself is the one hand-written piece: it builds two local class objects (Settings, runcrypt) whose constructors take a
-   class by value; [main_stmt] transcribes its 25 lines (text pinned: Gen/CliText.v "main/2", CliGlueText.cli_text_unchanged). *)
+   main() itself is the one hand-written piece: it builds two LOCAL class objects (Settings, runcrypt), which MiniC does not
+   express; [main_stmt] transcribes its 25 lines, calling the translated constructors on two global objects (text pinned: Gen/CliText.v "main/2", CliGlueText.cli_text_unchanged). *)
 From Coq Require Import ZArith NArith List String Bool.
 From Wencry Require Import Bytes MiniC MiniCRun MiniCConc SrcRun SrcRun2 SrcRun3 SrcRun5.
-From Wencry.Gen Require Src_cli Src_base64 Src_cry.
+From Wencry.Gen Require Src_cli Src_base64 Src_cry Src_whole.
 Import ListNotations.
 Local Open Scope Z_scope.
 Local Open Scope string_scope.
@@ -24,26 +24,12 @@ Definition is_mode (c : Z) : expr := EBin TBool Eq (EVar "mode") (EConst c).
 Definition set_exit_from_flag : stmt := SIf (EVar "flag") (SSet "exit" (EConst 0)) (SSet "exit" (EConst (-1))).
 Definition store_g (name : string) (t : ity) (e : expr) : stmt := SStore t (EGlobal name) e.
 
-(* Settings settings(ctype, htype, no_echo): the checking constructor (kernel/cry.cpp Settings::Settings/3) *)
-Definition settings_ctor : stmt :=
-  SSeq (SIf (EOr (EBin TBool Lt (EVar "ct") (EConst (-1))) (EBin TBool Gt (EVar "ct") (EConst 4))) (SPrim None "exit" [EConst 1]) SSkip)
-       (SIf (EOr (EBin TBool Lt (EVar "ht") (EConst (-1))) (EBin TBool Gt (EVar "ht") (EConst 2))) (SPrim None "exit" [EConst 1]) SSkip).
-
-(* runcrypt runner(fp, out, key, settings)  -- threads_num = THREAD_NUM = 4 *)
-Definition runner_ctor (T : Z) : stmt :=
-  SSeq (SSetPtr (EGlobal "rc.fin") (EPtrCell (field 0)))
- (SSeq (SSetPtr (EGlobal "rc.out") (EPtrCell (field 8)))
- (SSeq (SSetPtr (EGlobal "rc.key") (EPtrCell (field 16)))
- (SSeq (store_g "rc.settings.ctype" I8 (ECast I8 (EVar "ct")))
- (SSeq (store_g "rc.settings.htype" I8 (ECast I8 (EVar "ht")))
- (SSeq (store_g "rc.settings.no_echo" TBool (ELoad TBool (field 291)))
- (SSeq (store_g "rc.threads_num" U8 (EConst T))
- (SSeq (store_g "rc.mode" TBool (EConst 0))
- (SSeq (SCall None "FileHeader::FileHeader/6" (Some (EField "rc.header."))
-             [EPtrVar (EField "rc.fin"); EPtrVar (EField "rc.out"); EPtrVar (EField "rc.key");
-              ECast U8 (EVar "ct"); ECast U8 (EVar "ht"); EConst T])
- (SSeq (SCall None "AesFactory::AesFactory/1" (Some (EField "rc.aesfactory.")) [EPtrVar (EField "rc.key")])
-       (SCall None "multicry_master::multicry_master/1" (Some (EField "rc.crym.")) [EConst T])))))))))).
+(* Settings settings(ctype, htype, no_echo); runcrypt runner(fp, out, key, settings);  -- both constructors are translated
+   (Gen/Src_whole.v); threads_num defaults to THREAD_NUM = 4 *)
+Definition make_runner (T : Z) : stmt :=
+  SSeq (SCall None "Settings::Settings/3" (Some (EField "st.")) [ECast I8 (EVar "ct"); ECast I8 (EVar "ht"); ELoad TBool (field 291)])
+       (SCall None "runcrypt::runcrypt/5" (Some (EField "rc."))
+              [EPtrCell (field 0); EPtrCell (field 8); EPtrCell (field 16); EField "st."; EConst T]).
 
 Definition main_stmt : stmt :=
   SSeq (SCall (Some "vals") "get_v_opt/2" None [EConst 2; ENull])
@@ -53,8 +39,7 @@ Definition main_stmt : stmt :=
   (SIf (is_mode 104) (SSet "exit" (EConst 0))
   (SSeq (SSet "ct" (ECast I32 (ELoad I8 (field 289))))
   (SSeq (SSet "ht" (ECast I32 (ELoad I8 (field 290))))
-  (SSeq settings_ctor
-  (SSeq (runner_ctor 4)
+  (SSeq (make_runner 4)
   (SSeq (SSet "size" (ELoad U64 (field 280)))
   (SIf (EOr (is_mode 101) (is_mode 69))
        (SSeq (SCall (Some "flag") "runcrypt::execute_encrypt/2" (Some (EField "rc.")) [EVar "size"; field 24]) set_exit_from_flag)
@@ -62,13 +47,13 @@ Definition main_stmt : stmt :=
        (SSeq (SCall (Some "flag") "runcrypt::execute_decrypt/1" (Some (EField "rc.")) [EVar "size"]) set_exit_from_flag)
   (SIf (is_mode 118)
        (SSeq (SCall (Some "flag") "runcrypt::execute_verify/1" (Some (EField "rc.")) [EVar "size"]) set_exit_from_flag)
-       (SSet "exit" (EConst (-2))))))))))))))).
+       (SSet "exit" (EConst (-2)))))))))))))).
 
 (* the k-th fopen (call order) : None = fails; Some bytes = succeeds, the stream holds these bytes *)
 Definition stream_name (k : nat) : string := "@stream" ++ nat_string k.
 Definition main_state (c hbuf : nat) (opts : list opt) (fopens : list (option (list N))) : state :=
   let p := process_init c hbuf in
-  {| mem := mem p ++ Src_base64.globals ++ mk_objects "rc." Src_cry.objects_runcrypt
+  {| mem := mem p ++ Src_base64.globals ++ mk_objects "rc." Src_cry.objects_runcrypt ++ mk_objects "st." Src_whole.objects_Settings
             ++ [("fout", mk_object U8 128); ("fout_too_long", mk_object TBool 1); ("optind", {| o_ty := I32; o_cells := [1] |})];
      loc := []; pre := "";
      files := [("@getopt", {| cf_data := flat_map opt_record opts; cf_pos := 0; cf_eof := false |});
